@@ -25,6 +25,8 @@ import ModVerif.Proofs.EditReparseF
 import ModVerif.Proofs.EditGoodBlocksC
 import ModVerif.Proofs.EditWorkReparseD
 import ModVerif.Proofs.EditStartFixRun
+import ModVerif.Proofs.EditStartFixStub
+import ModVerif.Proofs.EditReparseFixA
 namespace ModVerif.Props.C15
 open ModVerif ModVerif.EditSpec ModVerif.Modfile
 
@@ -1176,5 +1178,134 @@ example :
          | .done _ res => res.all id
          | _ => false))
      | .error _ => false) = true := by decide +kernel
+
+/-! ### The harness fixer itself, and `typed_eq_reparse` for sessions that start from a file parsed WITH a fixer
+    (Proofs/EditStartFixStub.lean, Proofs/EditReparseFixA.lean) -/
+
+/-- **the fixer of the correspondence harness satisfies `FixerOK`**: `Modfile.fixStub` (= `c20FixStub` on the Go side) never
+    answers the empty version — its answers are `CanonicalVersion v` of a valid `v` (non-empty), two literals, and
+    `"v1." ++ toString path.length ++ ".0"` (at least the three bytes of `v1.`: `Edit.SFix.B_append_ne_nil`, by
+    `String.utf8ByteSize_append`).  So `parseStrict_inv_fix`, `nilDeref_unreachable_fix`, … apply to `fixStub` directly. -/
+theorem fixerOK_fixStub : Edit.SFix.FixerOK Modfile.fixStub := Edit.SFix.fixerOK_fixStub
+
+/-- the guard is the identity on `fixStub` -/
+example : Edit.SFix.guardFixer Modfile.fixStub = Modfile.fixStub := Edit.SFix.guardFixer_eq fixerOK_fixStub
+
+/-- non-vacuity of `parseStrict_inv_fix` / `nilDeref_unreachable_fix` with `fixStub` ITSELF (the instance above without the
+    guard, plus the path-dependent answer `pathlen` = `v1.1.0` for the module path `m`) -/
+example :
+    (match parseStrict (B "go.mod") (B "module m\n\ngo 1.21\n\nrequire a.b/c latest\nreplace a.b/c v1 => d.e/f master\nretract (\n\t[v1.1, latest] // bad\n\tv0.9\n)\nretract pathlen\n")
+        (some Modfile.fixStub) with
+     | .ok f =>
+       Edit.startOKb f && f.syn.stmts.all (fun x => match x with
+         | .lineBlock b => b.comments.suffix.isEmpty
+         | _ => true) &&
+       f.require.map (·.mod.version) == [B "v1.0.0"] &&
+       f.retract.map (fun r => (r.interval.low, r.interval.high)) ==
+         [(B "v1.1.0", B "v1.0.0"), (B "v0.9.0", B "v0.9.0"), (B "v1.1.0", B "v1.1.0")] &&
+       Edit.invB (Edit.load f) &&
+       (let ops : List Edit.Op := [.dropRetract (B "v1.1.0") (B "v1.0.0"), .addRetract (B "v1.1.0") (B "v1.0.0") [],
+          .addRequire (B "a.b/e") (B "v1.0.0"), .cleanup]
+        Edit.staticValidB false ops &&
+        (match Edit.runOps Edit.applyMod (Edit.load f) ops [] 0 with
+         | .done e res => res.all id && Edit.invB (Edit.cleanup e)
+         | _ => false))
+     | .error _ => false) = true := by decide +kernel
+
+/-- … and go.work with `fixStub` itself -/
+example :
+    (match parseWork (B "go.work") (B "go 1.21\n\nuse ./a\nreplace a.b/c v1 => d.e/f latest\n") (some Modfile.fixStub) with
+     | .ok f =>
+       Edit.workStartOKb f && f.syn.stmts.all (fun x => match x with
+         | .lineBlock b => b.comments.suffix.isEmpty
+         | _ => true) &&
+       f.replace.map (fun r => (r.old.version, r.new.version)) == [(B "v1.0.0", B "v1.0.0")] &&
+       (let ops : List Edit.Op := [.addUse (B "./d") [], .dropUse (B "./a"), .cleanup]
+        Edit.staticValidWB false ops && ops.all Edit.isWorkOpB &&
+        (match Edit.runOps Edit.applyWork (Edit.loadWork f) ops [] 0 with
+         | .done _ res => res.all id
+         | _ => false))
+     | .error _ => false) = true := by decide +kernel
+
+/-- **a go.mod strictly parsed with a fixer has block verbs on all its blocks** (`parsed_goodBlocks` for any fixer that never
+    answers empty: the statement loop reports `unknown block type` whatever the fixer is; `fixRetract` rewrites tokens of
+    lines only) -/
+theorem parsed_goodBlocks_fix (name data : Bytes) (fx : Fixer) (f : File) (h : parseStrict name data (some fx) = .ok f)
+    (hfx : Edit.SFix.FixerOK fx) : Edit.GoodBlocks f.syn.stmts :=
+  Edit.SFix.parseStrict_goodBlocks_fix (Edit.SFix.fixOK_some hfx) h
+
+/-- **typed_eq_reparse (partial), sessions that start from a file parsed WITH a version fixer.**  The statement of
+    `typed_eq_reparse_partial_run3` with the start file accepted by `parseStrict name data (some fx)`, `FixerOK fx`: after a
+    statically valid session and the final Cleanup, the strict re-parse of the formatted tree reads the values of the typed
+    file (`AbsPerm`), under the readable-values condition on the final typed lists and `comShapeB` of the final tree.
+    The re-parse is WITHOUT a fixer, deliberately: the typed versions are already the fixed ones and the tree holds exactly
+    these bytes (`parseStrict_inv_fix`), so the plain strict parser must read them back; re-parsing with `fx` would ask
+    `fx` to be idempotent on its own answers, which `FixerOK` does not say.  Only two steps of the proof of
+    `typed_eq_reparse_run3` look at how the start file was parsed — the start invariant and `GoodBlocks` of the parsed tree
+    (`parseStrict_inv_fix`, `parsed_goodBlocks_fix`); the rest is about states.
+    `_partial` for the same reason as `typed_eq_reparse_partial3`: `comShapeB` of the FINAL tree is a hypothesis, not derived. -/
+theorem typed_eq_reparse_run_fix_partial (name name' data : Bytes) (fx : Fixer) (f : File) (ops : List Edit.Op)
+    (e' : Edit.EFile) (res : List Bool)
+    (hf : parseStrict name data (some fx) = .ok f) (hfx : Edit.SFix.FixerOK fx)
+    (hk : Edit.WellFormedKeys f) (hs : Edit.NoBlockSuffix f.syn)
+    (hm : Edit.MarkersSettable f.syn.stmts) (hv : Edit.StaticValid false ops)
+    (h : Edit.runOps Edit.applyMod (Edit.load f) ops [] 0 = .done e' res)
+    (hok : Edit.AbsOK (Edit.absOf (Edit.cleanup e').f)) (hcom : Edit.comShapeB (Edit.cleanup e').f.syn = true) :
+    ∃ g, parseStrict name' (format (Edit.cleanup e').f.syn) none = .ok g ∧
+      Edit.AbsPerm (Edit.absOf g) (Edit.absOf (Edit.cleanup e').f) :=
+  Edit.SFix.typed_eq_reparse_run_fix (Edit.SFix.fixOK_some hfx) name name' data f ops e' res hf hk hs hm hv h hok hcom
+
+/-- … with the values condition on the STARTING file (`AbsOK (absOf f)`: the FIXED versions are canonical, the paths
+    readable) and the OPERATION LIST (`ArgsOK`), as in `typed_eq_reparse_partial4`; the typed file is also the step table's
+    prediction from `absOf f` (`Rel`, C08 `refines_abs_typed` — it needs `StartOK` only) -/
+theorem typed_eq_reparse_run_fix_partial2 (name name' data : Bytes) (fx : Fixer) (f : File) (ops : List Edit.Op)
+    (e' : Edit.EFile) (res : List Bool)
+    (hf : parseStrict name data (some fx) = .ok f) (hfx : Edit.SFix.FixerOK fx)
+    (hk : Edit.WellFormedKeys f) (hs : Edit.NoBlockSuffix f.syn)
+    (hm : Edit.MarkersSettable f.syn.stmts) (hstart : Edit.AbsOK (Edit.absOf f)) (hv : Edit.StaticValid false ops)
+    (hmod : ∀ op ∈ ops, Edit.IsModOp op) (hargs : ∀ op ∈ ops, Edit.ArgsOK op.toSpec)
+    (h : Edit.runOps Edit.applyMod (Edit.load f) ops [] 0 = .done e' res)
+    (hcom : Edit.comShapeB (Edit.cleanup e').f.syn = true) :
+    ∃ g, parseStrict name' (format (Edit.cleanup e').f.syn) none = .ok g ∧
+      Edit.AbsPerm (Edit.absOf g) (Edit.absOf (Edit.cleanup e').f) ∧
+      Rel (Edit.absOf (Edit.cleanup e').f) (run stdValidity (Edit.absOf f) (ops.map Edit.Op.toSpec)) :=
+  Edit.SFix.typed_eq_reparse_run_fix2 (Edit.SFix.fixOK_some hfx) name name' data f ops e' res hf hk hs hm hstart hv hmod hargs h hcom
+
+/-- non-vacuity of `typed_eq_reparse_run_fix_partial` / `partial2` / `parsed_goodBlocks_fix`, with `fixStub`: symbolic versions
+    in require / replace / retract (`latest`, `v1`, `master`, `pathlen`; the retract lines rewritten by `fixRetract`); the
+    start conditions hold (keys, no block suffix, settable markers, readable FIXED values), the session is statically valid
+    with readable arguments, the final tree passes `comShapeB`, and the re-parse WITHOUT a fixer reads the typed lists — the
+    retractions as a PERMUTATION (the new interval is added to the block of the `pathlen` retraction, which the typed list
+    has before it): the `AbsPerm` of the statement is not an equality here -/
+example :
+    let src := B "module m\n\ngo 1.21\n\nrequire a.b/c latest\nreplace a.b/c v1 => d.e/f master\nretract (\n\t[v1.1, latest] // bad\n\tv0.9\n)\nretract pathlen\n"
+    let ops : List Edit.Op := [.dropRetract (B "v1.1.0") (B "v1.0.0"), .addRetract (B "v1.2.0") (B "v1.3.0") (B "worse"),
+          .addRequire (B "a.b/e") (B "v1.0.0"), .dropGo, .addGo (B "1.22"), .sortBlocks]
+    (match parseStrict (B "go.mod") src (some Modfile.fixStub) with
+     | .ok f => Edit.startOKb f && f.syn.stmts.all (fun x => match x with
+         | .lineBlock b => b.comments.suffix.isEmpty
+         | _ => true) && decide (Edit.MarkersSettable f.syn.stmts) && Edit.absOKB (Edit.absOf f) &&
+         Edit.goodBlocksB f.syn.stmts &&
+         Edit.staticValidB false ops && ops.all (fun op => Edit.argsOKB op.toSpec) &&
+         (match Edit.runOps Edit.applyMod (Edit.load f) ops [] 0 with
+          | .done e _ =>
+            Edit.absOKB (Edit.absOf (Edit.cleanup e).f) && Edit.comShapeB (Edit.cleanup e).f.syn &&
+            (Edit.absOf (Edit.cleanup e).f).retract.map (fun r => (r.lo, r.hi)) ==
+              [(B "v0.9.0", B "v0.9.0"), (B "v1.1.0", B "v1.1.0"), (B "v1.2.0", B "v1.3.0")] &&
+            (match parseStrict (B "go.mod") (format (Edit.cleanup e).f.syn) none with
+             | .ok g => (Edit.absOf g).retract.map (fun r => (r.lo, r.hi)) ==
+                 [(B "v0.9.0", B "v0.9.0"), (B "v1.2.0", B "v1.3.0"), (B "v1.1.0", B "v1.1.0")] &&
+               { Edit.absOf g with retract := [] } == { Edit.absOf (Edit.cleanup e).f with retract := [] }
+             | .error _ => false)
+          | _ => false)
+     | .error _ => false) = true := by
+  decide +kernel
+
+/-- … and its operations are go.mod operations -/
+example : ∀ op ∈ ([.dropRetract (B "v1.1.0") (B "v1.0.0"), .addRetract (B "v1.2.0") (B "v1.3.0") (B "worse"),
+          .addRequire (B "a.b/e") (B "v1.0.0"), .dropGo, .addGo (B "1.22"), .sortBlocks] : List Edit.Op), Edit.IsModOp op := by
+  intro op hop
+  simp only [List.mem_cons, List.mem_nil_iff, or_false] at hop
+  rcases hop with rfl | rfl | rfl | rfl | rfl | rfl <;> trivial
 
 end ModVerif.Props.C15
